@@ -4,6 +4,7 @@ import modelpins
 PINS = {
     "CxxParser._parse_class_decl": "7389777b4a08cd7a4a82e7cd",
     "CxxParser._maybe_parse_class_enum_decl": "4e032bb90ebb09b12018a73b",
+    "CxxParser._parse_decl": "c1738e4cc791a6362a5d23e6",
     "CxxParser._parse_class_decl_base_clause": "c2f037b6dcbdee0e01c7ecf3",
     "CxxParser._parse_method_end": "d44b03d1e9ba047189393fbe",
     "CxxParser._discard_ctor_initializer": "7734cf1f4e4fddb31f943567",
